@@ -170,9 +170,8 @@ Fixpoint dup_params (s : stmt) : bool :=
 Definition CLS_SYNTAX : N := 99.
 
 (** compile a program as one top-level form and run it at module level *)
-Definition run_model (fuel : nat) (e : expr) : result :=
+Definition run_plain (fuel : nat) (e : expr) : result :=
   let '(d, pe, _) := gen top_ctx 0 e in
-  if any_stmt dup_params d then RExc CLS_SYNTAX [] else
   match execs (exec1 fuel) [] d pinit with
   | (SNormal, s1) =>
       match peval fuel [] pe s1 with
@@ -185,3 +184,22 @@ Definition run_model (fuel : nat) (e : expr) : result :=
   | (SFuel, _) => RFuel
   | _ => RStuck
   end.
+
+(** compile_and_exec_form compiles and runs the sub-forms of a top-level `do` one after the
+    other: a form Python rejects at compile time (duplicate parameter names after munging)
+    fails after the forms before it have run *)
+Fixpoint top_forms (e : expr) : list expr :=
+  match e with EDo a b => top_forms a ++ top_forms b | _ => [e] end.
+Definition form_dup (e : expr) : bool := let '(d, _, _) := gen top_ctx 0 e in any_stmt dup_params d.
+Fixpoint clean_prefix (l : list expr) : list expr :=
+  match l with [] => [] | x :: r => if form_dup x then [] else x :: clean_prefix r end.
+Definition do_of (l : list expr) : option expr :=
+  match l with [] => None | x :: r => Some (fold_left EDo r x) end.
+
+Definition run_model (fuel : nat) (e : expr) : result :=
+  if form_dup e then
+    match do_of (clean_prefix (top_forms e)) with
+    | None => RExc CLS_SYNTAX []
+    | Some p => match run_plain fuel p with RVal _ t => RExc CLS_SYNTAX t | other => other end
+    end
+  else run_plain fuel e.
